@@ -301,6 +301,9 @@ def gen_kwargs(ch: Choices, multipart_possible: bool):
         kw["follow_redirects"] = bool(ch.draw("w.kw.rv", 2))
     if ch.chance("w.kw.ext", 1, 8):
         kw["extensions"] = {"sim": "ext"}
+    if ch.chance("w.kw.cookies", 1, 8):
+        # per-call cookies: they belong to this call only
+        kw["cookies"] = {"session": "c%d" % ch.draw("w.kw.cookie_v", 1000)}
     return kw
 
 
@@ -656,9 +659,9 @@ def run_workload(ch: Choices, variant: str, callers: List[List[dict]], uploads_s
                 import types
                 headers = types.MappingProxyType(headers)
         kw["headers"] = headers
-        for k in ("timeout", "follow_redirects", "extensions"):
+        for k in ("timeout", "follow_redirects", "extensions", "cookies"):
             if k in skw:
-                kw[k] = skw[k]
+                kw[k] = dict(skw[k]) if isinstance(skw[k], dict) else skw[k]
         return q, op, variables, args, kw
 
     if is_async:
